@@ -281,8 +281,9 @@ class AddressRange(collections.namedtuple(
     @property
     def is_unbounded_range(self):
         """Is this address an unbounded range?"""
-        rows, cols = self.size
-        return rows == MAX_ROW or cols == MAX_COL
+        # a bounded range may span every row or column of the sheet (A1:XFD1)
+        return 0 in (self.start.row, self.end.row,
+                     self.start.col_idx, self.end.col_idx)
 
     @property
     def size(self):
